@@ -140,6 +140,13 @@ def run(chk):
         if msg:
             failures.append(("seedalone", sc, msg))
     samples.append(_sample(sa[0]))
+    # ---- threads: all at once vs one after the other, on the implementation (test) -------------------
+    th = [rngcorr.gen_threads(r, storm=(i % 8 == 0)) for i in range(160 if quick else 2000)]
+    for sc, msg in zip(th, vlib.parallel_map(lambda s: rngcorr.judge_threads(c_exe, s), th, workers=4)):
+        account(sc)
+        if msg:
+            failures.append(("threads", sc, msg))
+    samples.append(_sample(th[1], limit=6))
     # ---- proof broken: model-steered search for a failing input -----------------------------------
     leak = []
     if tgen_ok:
@@ -173,7 +180,8 @@ def run(chk):
         "digest of up to 30000 further outputs per seed; (b) seed-alone differential on the implementation over ALL samplers: the same seed "
         "and calls after 1-3 different histories (earlier seeds, partially consumed bit caches, memoising samplers called with equal / "
         "different parameters), each on a fresh thread / all threads concurrently / one after another on the main thread; doubles compared "
-        "as bit patterns. Non-trivial: seed-alone scenario with a non-empty history and a cache-using call (flip or a memoising sampler); "
+        "as bit patterns; (c) 2-16 threads seeding themselves (every 8th scenario: re-seeding 100-300 times each) and drawing from all "
+        "samplers at once vs one after the other: every thread's output must be the same. Non-trivial: seed-alone scenario with a non-empty history and a cache-using call (flip or a memoising sampler); "
         "correspondence stream with a re-seed after a draw or more than 64 flips in one call; every Spec comparison. Distinct by content hash.")
     chk.cov["input_distribution"] = dict(sorted(dist.items()))
     chk.cov["corpus"] = n_corpus
@@ -200,7 +208,15 @@ def run(chk):
             model += "; state read by the calls but not written by cmb_random_initialize according to the AST: %s." % ", ".join(leak)
         small.note = ("seed-alone violated (%d failing scenarios, first one shrunk): %s%s\n"
                       "the lines after `mark` must be identical in all runs" % (len(sa_fail), msg2, model))
-        chk.violation("values after seeding depend on what the thread did before seeding: %s%s" % (msg2, model), small.text(), True)
+        chk.violation("values after seeding depend on %s: %s%s" % (
+            "what other threads do at the same time (or on the history of the thread)" if small.mode == "conc"
+            else "what the thread did before seeding", msg2, model), small.text(), True)
+    th_fail = [(sc, msg) for k, sc, msg in failures if k == "threads"]
+    if th_fail and not sa_fail:
+        sc, msg = min(th_fail, key=lambda x: sum(len(r_) for r_ in x[0].runs))
+        sc.note = ("what a thread draws depends on what other threads do at the same time (%d failing scenarios): %s\n"
+                   "every run must print the same under `rngdrv conc` as under `rngdrv seq`" % (len(th_fail), msg))
+        chk.violation("values drawn after seeding depend on what other threads do at the same time: " + msg, sc.text(), True)
     if spec_fail:
         sc, msg = spec_fail[0]
         sc.note = "the implementation's stream differs from the documented generator: " + msg
@@ -238,6 +254,18 @@ def replay(chk, path):
             chk.violation("replay: " + msg, sc.text(), True)
         else:
             chk.log("replay: all runs print the same values after `mark`")
+        return
+    if sc.kind == "threads":
+        msg = None
+        for _ in range(20):                      # a race does not show on every execution
+            chk.cov["evaluations"] += 1
+            msg = rngcorr.judge_threads(c_exe, sc)
+            if msg:
+                break
+        if msg:
+            chk.violation("replay: " + msg, sc.text(), True)
+        else:
+            chk.log("replay: every thread prints the same alone and with the others running (20 executions)")
         return
     try:
         gen_rng.run(impl)
